@@ -10,7 +10,7 @@ import gen_c05_cases as G
 import gen_c06_cases as H
 
 LEVEL = 'proof'
-ENGINES = ['interp', 'gen0', 'gen1', 'gen2', 'gen3', 'lazy']
+ENGINES = ['interp', 'gen0', 'gen1', 'gen2', 'gen3', 'lazy', 'lazybb']
 VALS_ADDR = 0x20000000
 
 
@@ -34,7 +34,7 @@ def run_cases(impl, model, cases):
     for i, (c, m) in enumerate(zip(cases, ms)):
         img = H.tramp_image(c['proto'], m, c['vals'], c['body'], c['junk'], VALS_ADDR)
         vb = H.vals_buffer(c['proto'], c['body'], c['resvals'])
-        target = 'tramp2' if c['engine'] == 'lazy' else 'tramp'
+        target = 'tramp2' if c['engine'].startswith('lazy') else 'tramp'
         lines.append(' '.join(['c%d' % i, 'c06', c['engine'], target, G.hexs(H.c06_mir(c['proto'], c['body']).encode()),
                                G.hexs(vb), G.hexs(img)]))
     rows, err = G.run_harness(vlib, impl, lines, env={'C06_DUMP': '1'})
